@@ -96,6 +96,12 @@ func names(sc *Scope) []string {
 	return ns
 }
 
+// params renders the parameter list.  Every call of a generated function passes its plain parameters BY KEYWORD, so
+// whether such a parameter is positional-or-keyword or keyword-only makes no difference to what it is bound to - nor
+// does an unused *rest_ parameter in between.  The spelling is therefore a free choice, taken per scope from the
+// names of its parameters: all positional-or-keyword / all keyword-only after a bare * / the first one positional and
+// the others keyword-only after *rest_.  (Found missing by an independently seeded change: the table that moves
+// arguments into cells stopped short of the keyword-only slots - a captured keyword-only parameter was an unbound cell.)
 func params(sc *Scope) string {
 	var a, d []string
 	for _, n := range names(sc) {
@@ -108,7 +114,24 @@ func params(sc *Scope) string {
 			d = append(d, n+"="+p.From)
 		}
 	}
-	return strings.Join(append(a, d...), ", ")
+	all := append(append([]string{}, a...), d...)
+	if len(all) == 0 {
+		return ""
+	}
+	v := 0
+	for _, n := range all {
+		v += len(n) + int(n[0])
+	}
+	v = (v + len(sc.Ev)) % 3
+	switch {
+	case v == 1:
+		return "*, " + strings.Join(all, ", ")
+	case v == 2 && len(a) >= 1:
+		return strings.Join(append([]string{a[0], "*rest_"}, all[1:]...), ", ")
+	case v == 2:
+		return strings.Join(append([]string{"*rest_"}, all...), ", ")
+	}
+	return strings.Join(all, ", ")
 }
 
 // argDict is the keyword dictionary the epilogue passes: one entry per plain parameter.
